@@ -7,7 +7,7 @@ From NV Require Import Gen.MetaConsts Meta.SMap Meta.SMapProofs Meta.Model Meta.
      Meta.WfProofs Meta.ListModel Meta.ListProofs.
 Local Open Scope N_scope.
 
-Ltac nlia := unfold cid, oid in *; lia.
+Ltac nlia := unfold item, cursor, cid, oid in *; lia.
 
 (* no stored object has the zero ID (the Go code reads a zero ID as "unset") *)
 Definition oids_pos_b (b : cstate) : Prop := forall o e, In (o, e) (objs b) -> o <> 0.
@@ -30,6 +30,13 @@ Lemma X_other bs cc co cc' co' :
 Proof.
   intros H1 H2. unfold X. induction bs as [|kv r IH]; simpl; auto.
   rewrite (bitems_other cc co cc' co' kv), IH; auto; intros; auto using in_cons, in_eq.
+Qed.
+
+Lemma bitems_self cc co (c : cid) (b : cstate) :
+  bitems c (if c =? cc then co else 0) (c, b) = bitems cc co (c, b).
+Proof.
+  unfold bitems. simpl. f_equal. apply filter_ext. intros it. unfold bsel. rewrite N.eqb_refl.
+  destruct (c =? cc); reflexivity.
 Qed.
 
 Lemma bitems_cgc cc co (cb : cid * cstate) : cgc (snd cb) = true -> bitems cc co cb = [].
@@ -77,6 +84,11 @@ Lemma firstn_app_gt {A} n (l1 l2 : list A) : (length l1 <= n)%nat -> firstn n (l
 Proof. intros H. rewrite firstn_app. now rewrite firstn_all2 by nlia. Qed.
 Lemma skipn_app_gt {A} n (l1 l2 : list A) : (length l1 <= n)%nat -> skipn n (l1 ++ l2) = skipn (n - length l1) l2.
 Proof. intros H. rewrite skipn_app. now rewrite skipn_all2 by nlia. Qed.
+
+Lemma firstn_app_eq {A} n m (l1 l2 : list A) : n = (length l1 + m)%nat -> firstn n (l1 ++ l2) = l1 ++ firstn m l2.
+Proof. intros ->. rewrite firstn_app_gt by lia. f_equal. f_equal. lia. Qed.
+Lemma skipn_app_eq {A} n m (l1 l2 : list A) : n = (length l1 + m)%nat -> skipn n (l1 ++ l2) = skipn m l2.
+Proof. intros ->. rewrite skipn_app_gt by lia. f_equal. lia. Qed.
 
 (* items of a bucket after a non-zero ID [l] that is not below the start [o0] *)
 Lemma bitems_after_last c b cc co l ids0 :
@@ -188,13 +200,13 @@ Proof.
         destruct IH as [I1 [I2 I3]].
         rewrite firstn_all2 in I1 by nlia.
         repeat split.
-        -- rewrite I1. Show. rewrite firstn_app_gt by nlia. rewrite <- app_assoc. do 3 f_equal. nlia.
-        -- intros Hr. rewrite skipn_app_gt by nlia. replace (room - length MG)%nat with (S room') by nlia.
+        -- rewrite I1. rewrite (firstn_app_eq room (S room')) by nlia. now rewrite <- app_assoc.
+        -- intros Hr. rewrite (skipn_app_eq room (S room')) by nlia.
            rewrite <- I2 by nlia.
            destruct I3 as [[Er Ecur]|Hin].
            ++ subst rest. inversion Ecur; subst. simpl. rewrite N.leb_refl. unfold X. simpl. rewrite app_nil_r.
               destruct ids as [|i0 ir] eqn:Ei.
-              ** destruct (Hrem0 eq_refl) as [El E]. subst lst. rewrite <- EG. fold G. fold MG. exact E.
+              ** destruct (Hrem0 eq_refl) as [El E]. subst lst. unfold o0. rewrite bitems_self. etransitivity; [symmetry; exact EG|]. first [exact E | reflexivity].
               ** rewrite Hrem; auto; [|congruence]. apply skipn_all2. nlia.
            ++ now rewrite Hkeep.
         -- destruct I3 as [[Er Ecur]|Hin]; [inversion Ecur; subst; right; now left|right; now right].
